@@ -287,6 +287,10 @@ func (r *DecodeResult) NestedResults(tag int) ([]*DecodeResult, error) {
 //
 // Currently, Range will iterate in the order of the tags, but this is not guaranteed for future use.
 func (r *DecodeResult) Range(fn func(tag int, field *FieldData) bool) {
+	if r == nil {
+		// (*Decoder).Decode returns a nil result for an empty message
+		return
+	}
 	for idx, tag := range r.flatTags {
 		field := r.flatData[idx]
 		if field == nil || len(field.data) == 0 {
